@@ -173,6 +173,15 @@ func (i *Interface) getRecord(dbName string, dbKey string, mustBeWriteable bool)
 
 	r = i.checkCache(dbName + ":" + dbKey)
 	if r != nil {
+		// The cached record may have been deleted or may have expired since it
+		// was cached: apply the same validity check as when reading from storage.
+		r.Lock()
+		valid := r.Meta().CheckValidity()
+		r.Unlock()
+		if !valid {
+			return nil, db, ErrNotFound
+		}
+
 		if !i.options.hasAccessPermission(r) {
 			return nil, db, ErrPermissionDenied
 		}
@@ -217,6 +226,14 @@ func (i *Interface) getMeta(dbName string, dbKey string, mustBeWriteable bool) (
 
 	r := i.checkCache(dbName + ":" + dbKey)
 	if r != nil {
+		// See getRecord: cached records are subject to the validity check too.
+		r.Lock()
+		valid := r.Meta().CheckValidity()
+		r.Unlock()
+		if !valid {
+			return nil, db, ErrNotFound
+		}
+
 		if !i.options.hasAccessPermission(r) {
 			return nil, db, ErrPermissionDenied
 		}
